@@ -355,10 +355,12 @@ impl MultiState {
         // The zombie lines were drawn for the last time, so make `DrawTarget` forget about them
         // so they aren't cleared on next draw.
         if !prints_text {
-            // Track the total number of zombie lines on the screen.
-            self.zombie_lines_count += adjust;
-            self.draw_target
+            // Not all of them may have been painted if the bars exceed the terminal height
+            let kept = self
+                .draw_target
                 .adjust_last_line_count(LineAdjust::Keep(adjust));
+            // Track the total number of zombie lines on the screen.
+            self.zombie_lines_count += kept;
         }
 
         drawable
